@@ -123,9 +123,15 @@ func (c *OracleC13) AfterTxn(w *ledger.World, bc *ledger.BlockCtx, o *ledger.Out
 		dA := b.Allocated - sumSize[id]
 		dO := int64(b.SP.TotalOffers) - int64(sumOffer[id])
 		if dA != c.discA[id] {
+			step := dA - c.discA[id]
 			c.discA[id] = dA
 			if dA != 0 {
-				w.Tr.Violate(&sim.Violation{Prop: "C13", Oracle: "allocated", Sig: fmt.Sprintf("C13/allocated-differs-from-open-allocations/%s/%s-blobber", fn, liveness(b)),
+				// a drift of a few bytes (ceil(size/shards) rounding) is a different class than a missing booking
+				class := ""
+				if step >= -64 && step <= 64 {
+					class = "/off-by-rounding"
+				}
+				w.Tr.Violate(&sim.Violation{Prop: "C13", Oracle: "allocated", Sig: fmt.Sprintf("C13/allocated-differs-from-open-allocations/%s/%s-blobber%s", fn, liveness(b), class),
 					Detail: fmt.Sprintf("after %s blobber %s (%s) has Allocated=%d but its blobber allocations in open allocations sum to %d (%s)", fn, short(id), liveness(b), b.Allocated, sumSize[id], sign(dA))})
 			}
 		}
@@ -216,6 +222,16 @@ func (c *OracleC12) AfterTxn(w *ledger.World, bc *ledger.BlockCtx, o *ledger.Out
 				dir := "pool-exceeds-values"
 				if d < 0 {
 					dir = "values-exceed-pool"
+				}
+				// context: did a dead blobber leave the allocation in this transaction?
+				if prev != nil && prev.Allocs[id] != nil {
+					for _, pba := range prev.Allocs[id].BAs {
+						if a.BA(pba.BlobberID) == nil {
+							if pb := prev.Blobbers[pba.BlobberID]; pb != nil && pb.Dead() {
+								dir += "/dead-blobber-removed"
+							}
+						}
+					}
 				}
 				w.Tr.Violate(&sim.Violation{Prop: "C12", Oracle: "balance", Sig: fmt.Sprintf("C12/challenge-pool-differs-from-outstanding-values/%s/%s", fn, dir),
 					Detail: fmt.Sprintf("after %s allocation %s: challenge pool balance %d, sum of blobbers' ChallengePoolIntegralValue %d", fn, short(id), bal, sum)})
